@@ -361,6 +361,83 @@ impl fmt::Debug for TB {
     }
 }
 
+/// A tracked value with a heap buffer that is read and written non-atomically (race workloads).
+pub struct TV {
+    core: T8,
+    buf: Vec<u64>,
+}
+impl TV {
+    pub fn fill(&mut self, t: u64) {
+        self.core.tag = t;
+        for (i, b) in self.buf.iter_mut().enumerate() {
+            *b = t.wrapping_add(i as u64);
+        }
+    }
+}
+impl Pay for TV {
+    const NAME: &'static str = "TV";
+    const HAS_ID: bool = true;
+    fn make(tag: u64) -> Self {
+        TV {
+            core: T8::make(tag),
+            buf: (0..6).map(|i| tag.wrapping_add(i)).collect(),
+        }
+    }
+    fn id(&self) -> u32 {
+        self.core.id
+    }
+    fn check(&self) -> Result<(), String> {
+        self.core.check()?;
+        for (i, b) in self.buf.iter().enumerate() {
+            if *b != self.core.tag.wrapping_add(i as u64) {
+                return Err(format!("TV buffer torn/stale: id={} tag={} buf[{}]={}", self.core.id, self.core.tag, i, b));
+            }
+        }
+        Ok(())
+    }
+    fn tag(&self) -> u64 {
+        self.core.tag
+    }
+    fn set_tag(&mut self, t: u64) {
+        self.fill(t)
+    }
+}
+impl Clone for TV {
+    fn clone(&self) -> Self {
+        let core = self.core.clone();
+        TV {
+            buf: self.buf.clone(),
+            core,
+        }
+    }
+}
+impl PartialEq for TV {
+    fn eq(&self, o: &Self) -> bool {
+        self.core == o.core
+    }
+}
+impl Eq for TV {}
+impl PartialOrd for TV {
+    fn partial_cmp(&self, o: &Self) -> Option<CmpOrd> {
+        self.core.partial_cmp(&o.core)
+    }
+}
+impl Ord for TV {
+    fn cmp(&self, o: &Self) -> CmpOrd {
+        self.core.cmp(&o.core)
+    }
+}
+impl Hash for TV {
+    fn hash<H: Hasher>(&self, h: &mut H) {
+        self.core.hash(h)
+    }
+}
+impl fmt::Debug for TV {
+    fn fmt(&self, f: &mut fmt::Formatter) -> fmt::Result {
+        fmt::Debug::fmt(&self.core, f)
+    }
+}
+
 /// Byte-aligned tracked value (align 1, size 9).
 #[repr(C)]
 pub struct T1 {
